@@ -112,6 +112,16 @@ def write_start_h5_rank3(path, n, values):
     os.remove(raw)
 
 
+def write_start_h5_f64(path, n, values):
+    """start file whose /PhaseSpace/data [1][1][n][n] is stored as 64-bit floats"""
+    import array
+    raw = path + ".raw"
+    with open(raw, "wb") as f:
+        array.array("f", values).tofile(f)
+    subprocess.run([build.build_h5json(), "--write64", path, str(n), raw], check=True)
+    os.remove(raw)
+
+
 def write_start_h5(path, n, values):
     """minimal Inovesa start file with /PhaseSpace/data = values (n*n floats, row = position index)"""
     import array
